@@ -15,6 +15,8 @@
 //                                                                                 : List String
 //   func_text        gofmt-normalised, comment-free text of `func`               : String
 //   returns_in_func  rendered operands of every return statement in `func`       : List String
+//   strings_in_var   all string literals in the initialiser of package-level var `ident` (e.g. the
+//                    keys of a map literal), source order                         : List String
 //   lines_matching   any text file (e.g. Python source): trimmed lines matching the Go regexp
 //                    given in `ident`, file order                                 : List String
 //   skeleton_in_func control skeleton of `func` (calls filtered by `filter`, if/else/for/case/func
@@ -504,6 +506,23 @@ func main() {
 				die("fact %s: pattern of %s is not a constant string", fc.Name, fc.Ident)
 			}
 			fmt.Fprintf(&b, "def %s : String := %s\n\n", fc.Name, leanString(constant.StringVal(cv)))
+		case "strings_in_var":
+			v := findValue(f, fc.Ident)
+			if v == nil {
+				die("fact %s: %s not found in %s", fc.Name, fc.Ident, fc.File)
+			}
+			var ss []string
+			ast.Inspect(v, func(n ast.Node) bool {
+				if bl, ok := n.(*ast.BasicLit); ok && bl.Kind == token.STRING {
+					s, err := strconv.Unquote(bl.Value)
+					if err != nil {
+						die("fact %s: %v", fc.Name, err)
+					}
+					ss = append(ss, s)
+				}
+				return true
+			})
+			fmt.Fprintf(&b, "def %s : List String :=\n  %s\n\n", fc.Name, leanStringList(ss))
 		case "strings_in_func", "ints_in_func":
 			var items []posItem
 			ast.Inspect(fd.Body, func(n ast.Node) bool {
